@@ -21,6 +21,7 @@ class C17(Check):
     pid = "C17"
     title = "SBML import builds the model the document describes"
     rules = {
+        "U7": "(shared with C11) the generator the import writes its module with keeps one injective definition table (K1 of C11)",
         "U1": "the generated module's file path and sys.modules key depend on an injective function of the input document (its "
               "resolved path and/or content digest), not only on lossy derivatives such as the file stem",
         "U2": "the argument list of a generated function definition and the argument list of the builder call that uses it are the same "
@@ -31,7 +32,7 @@ class C17(Check):
               "same path must be imported anew",
         "U5": "the generated source is written before it is imported, and the model is built from exactly that module",
     }
-    floors = {"U1": 2, "U2": 4, "U3": 2, "U4": 1, "U5": 2, "U6": 1}
+    floors = {"U7": 5, "U1": 2, "U2": 4, "U3": 2, "U4": 1, "U5": 2, "U6": 1}
     decided = [
         "two documents read in one session (same stem, different directory or content) get different generated modules",
         "generated functions are called with the arguments they were defined with",
@@ -44,6 +45,7 @@ class C17(Check):
     def run(self) -> None:
         mod = self.prog.module(MOD)
         rd = mod.func("read")
+        self.borrow("C11", ("K1",), "U7")
         # ---- U1: what does the module name depend on?
         di = DepInterp()
         st = DepSt().set("file", frozenset({"file"}))
